@@ -5,6 +5,7 @@ violations judged by the specification side, the others are model/implementation
 -/
 import Anytype.Driver.Exec
 import Anytype.Spec.Equiv
+import Anytype.Model.Async
 namespace Anytype.Driver
 open Anytype Std
 
@@ -66,26 +67,20 @@ def checkSer (tree : JVal) (text : Str) : M Unit := do
     if ser t != text then fail s!"ser: model prints {showStr (ser t)} observed {showStr text}"
   | _ => fail s!"SPEC C02: String() is not valid RFC 8259 JSON: {showStr text}"
 
-/-- observable trace check (replaced by `Anytype.Async.validTrace` of Model/Async once available):
-every i < n has exactly one start and one end, start before end, `r` exactly once and last,
-for the mutex variants the call intervals are disjoint -/
+/-- parse the observed events `s<i>` (callStart), `e<i>` (callEnd), `r` (ret) -/
+def parseEvents (ev : List String) : Option (List Async.Event) :=
+  ev.mapM fun e =>
+    if e == "r" then some .ret
+    else match e.toList with
+      | 's' :: d => (String.ofList d).toNat?.map .callStart
+      | 'e' :: d => (String.ofList d).toNat?.map .callEnd
+      | _ => none
+
+/-- the observed trace must be one the goroutine LTS can produce (`C15_trace_sound`) -/
 def traceOk (isMap : Bool) (n : Nat) (ev : List String) : Bool :=
-  let idxOf (e : String) : Option Nat := (ev.findIdx? (· == e))
-  let cnt (e : String) : Nat := ev.count e
-  let perElem := (List.range n).all fun i =>
-    cnt s!"s{i}" == 1 && cnt s!"e{i}" == 1 &&
-    (match idxOf s!"s{i}", idxOf s!"e{i}" with | some a, some b => a < b | _, _ => false)
-  let retOk := cnt "r" == 1 && ev.getLast? == some "r"
-  let sizeOk := ev.length == 2 * n + 1
-  let disjoint := !isMap ||
-    -- under a mutex the trace alternates s i, e i
-    (let body := ev.dropLast
-     let rec alt : List String → Bool
-       | s :: e :: rest => s.startsWith "s" && e == "e" ++ (s.drop 1).toString && alt rest
-       | [] => true
-       | _ => false
-     alt body)
-  perElem && retOk && sizeOk && disjoint
+  match parseEvents ev with
+  | some tr => Async.validTrace isMap n tr
+  | none => false
 
 def execFn (name : String) (fields : List String) : M Unit := do
   match name, fields with
